@@ -46,7 +46,9 @@ def run(tier):
              '1-5 recipients, folded / encoded-word / 8-bit header blocks, bodies with dot lines, bare LF, lone CR, 8-bit, empty, '
              'no final newline, command-looking lines) through the real StaticSmtpRelay into the real edge Server + SmtpSession '
              'over a socketpair, with PIPELINING / 8BITMIME / SMTPUTF8 / ENHANCEDSTATUSCODES / SIZE / AUTH advertised or not, HELO '
-             'fallback, and end-of-data verdicts 250 / 451 / 554; non-trivial = non-ASCII or quoted address, or a non-default '
+             'fallback, end-of-data verdicts 250 / 451 / 554, RCPT verdicts per recipient, MAIL refused (450 / 550 / 421), and one '
+             'to three messages over one reused connection; the real HttpRelay into the real WsgiEdge (gevent WSGI server on '
+             'loopback), 1-3 messages with and without keep-alive, edge verdicts 250 / 451 / 554; non-trivial = non-ASCII or quoted address, or a non-default '
              'server configuration',
         trigger=lambda tr: tr['cls'] != 'smtp' or any(b > 127 or b == 34 for r in tr['sent']['rcpts'] for b in r),
         assumptions=['address quoting and header serialisation are codec fidelity: identity oracle, sampled (DESIGN.md section 8)',
